@@ -140,5 +140,29 @@ def run (a : AState) : List Op → AState × List Out
     let r2 := run r.1 ops
     (r2.1, r.2 :: r2.2)
 
+/-- the slots an operation is allowed to change (its targets); every other
+slot must keep its value: the isolation statement of C07 -/
+def targets : Op → List Nat
+  | .new h _ _ _ => [h]
+  | .copy _ g => [g]
+  | .copyctor _ g => [g]
+  | .move h g => [h, g]
+  | .reshape _ g _ _ => [g]
+  | .flatten _ g => [g]
+  | .reset h _ => [h]
+  | .resetv h _ => [h]
+  | .iadd h _ => [h]
+  | .isub h _ => [h]
+  | .imul h _ => [h]
+  | .invalidate h => [h]
+  | .drop h => [h]
+  | .param p _ _ _ => [vslot p, gslot p]
+  | .pvalue _ g => [g]
+  | .pgrad _ g => [g]
+  | .ptensor _ g => [g]
+  | .piaddValue p _ => [vslot p]
+  | .pdrop p => [vslot p, gslot p]
+  | .read _ | .shape _ | .valid _ | .device _ | .live | .readall => []
+
 end Spec
 end Primitiv.Cow
